@@ -846,10 +846,13 @@ static void caseGeneral(Rng& r, Ctx& c)
     if (c.truth("compute", K(kp + "compute-failed:var-swap"), v4 != nullptr, "variables in reverse order"))
     {
       bool ratio = mi.cls == CLS_RATIO; // G12/G1 vs G12/G2: the two variables do not play the same role
+      // POISSON: a univariate estimator (pair term minus half the mean of ONE variable); no cross definition to mirror
+      bool poisson = std::string(mi.name) == "POISSON";
       for (int i = 0; i < ndir && !ratio; i++)
         for (int a = 0; a < nvar; a++)
           for (int b = 0; b <= a; b++)
           {
+            if (poisson && a != b) continue;
             Got g0 = readVec(*v, i, a, b), g4 = readVec(*v4, i, nvar - 1 - b, nvar - 1 - a);
             int ns = (int)g0.sw.size();
             if (!c.truth("var-swap", K(kp + "var-swap:shape"), g0.sw.size() == g4.sw.size(), "row count")) continue;
@@ -861,7 +864,8 @@ static void caseGeneral(Rng& r, Ctx& c)
               std::string w = fmt("dir %d (%d,%d) slot %d/%d [%s]", i, a, b, s, ns, dirs[i].tag.c_str());
               std::string kk = K(kp + (a == b ? "var-swap:simple" : "var-swap:cross"));
               // cross-covariance of heterotopic variables: same (open) finding as the pair rule of compareDir
-              if (refs[i].asym && mi.cls == CLS_ODD && a != b && !isotopicPair(D, a, b))
+              // (COVARIANCE, COVARIANCE_NC and COVARIOGRAM share the test of AVario.cpp)
+              if (refs[i].asym && a != b && !isotopicPair(D, a, b))
                 kk = K("C12:" + path + ":odd-cross:heterotopic-pair-rule");
               c.close("var-swap", kk, g4.sw[s4], g0.sw[s], relTol(g0.sw[s], 0), "sw " + w);
               double h4 = refv::undef(g4.hh[s4]) ? g4.hh[s4] : sg * g4.hh[s4];
